@@ -367,23 +367,27 @@ def run(ctx):
         # whenever the root IS a prefix of the candidate, the candidate is replaced by the remainder: what is left of it may or
         # may not begin with a slash (the root of the top-level matcher is spelled as the user typed it, `sub/` included)
         for c in roots[:1]:
-            a = op_place(c.args[1])
-            base = None
-            for d in g.defs().get(a["l"], []) if a is not None else []:
-                if d[0] == "assign" and d[3]["rv"]["k"] == "ref":
-                    base = d[3]["rv"]["place"]["l"]
-            rets = [bb for bb, b in enumerate(g.blocks) if b["term"]["k"] == "return"]
-            if base is None or not rets:
+            # by value: the root strip answers Some(REST); stripping a slash off REST answers None or Some(REST'); whatever is
+            # returned from there on is REST or REST' — not the candidate as it came in (a mutable `path` reassigned step by
+            # step, shadowing, early returns or unwrap_or spell the same)
+            REST, REST2, OTHER = I(777), I(778), I(900)
+            root_keys = {(x.bb, x.loc) for x in roots}
+
+            def model(call, argv):
+                if call.path.endswith("strip_prefix") and (call.bb, call.loc) not in root_keys:
+                    cand = argv[1] if len(argv) > 1 else None
+                    return ("s", frozenset([V("None", None), V("Some", REST2 if cand == REST else OTHER)]))
+                return None
+            from ..flow import combinator_model as _cm, value_set as _vs
+            sx = seed_after_call(g, c, V("Some", REST), call_model=_cm(facts, model))
+            rv = set()
+            for v_ in sx.ret_values.values():
+                rv |= set(_vs(v_))
+            if not rv:
                 r.bad("strip|applied", "anchor-missing: candidate operand of the root strip_prefix", fn=g)
-                continue
-            sx = seed_after_call(g, c, V("Some", None))
-            writes = {bb for bb, j_, st in g.stmts() if st["k"] == "assign" and st["place"]["l"] == base and not st["place"]["p"]
-                      and bb in sx.exec_blocks}
-            alledges = {(u, v) for u in range(len(g.blocks)) for v in g.succ(u)}
-            left = C.all_paths_pass(g, [c.target], writes, rets, removed_edges=alledges - sx.exec_edges)
-            if left:
+            elif rv <= {REST, REST2}:
+                r.ok("strip|applied", "root is a prefix ⇒ the candidate is replaced by the remainder (a leading slash is optional)", fn=g)
+            else:
                 r.bad("strip|applied", "Gitignore::strip can return the candidate unstripped although the ignore file's directory is a "
                       "prefix of it: a root spelled with a trailing slash (`rg pat sub/`) leaves no slash to find, and every anchored "
                       "pattern of that directory's ignore file stops matching", fn=g, loc=c.loc, construct="strip")
-            else:
-                r.ok("strip|applied", "root is a prefix ⇒ the candidate is replaced by the remainder (a leading slash is optional)", fn=g)
